@@ -1,6 +1,6 @@
 """C06 — reference operators as cell sets: contracts on formulas/ranges.py (DESIGN §4 C06, A.1)."""
 from pyvc.contract import Contract, RecordT, IntT, DecT, StrT, OneOf, ConstT, TupleT
-from pyvc.spec import forall_cells, implies, iff
+from pyvc.spec import forall_cells, implies, iff, same_object, is_canonical_decimal
 
 MAXCOL, MAXROW = 16384, 1048576
 
@@ -10,9 +10,14 @@ RectNamed = RecordT({'sheet_id': StrT(), 'n1': IntT(), 'n2': IntT(), 'r1': DecT(
 
 
 def wf_rect(x):
+    # a proper, non-empty rectangle of the grid; 0 stands for "from the first column / row"
     return (0 <= x['n1'] <= x['n2'] <= MAXCOL and x['n2'] >= 1
-            and 0 <= int(x['r1']) <= int(x['r2']) <= MAXROW and int(x['r2']) >= 1
-            and (x['n1'] != 0 or x['n2'] == MAXCOL) and (int(x['r1']) != 0 or int(x['r2']) == MAXROW))
+            and 0 <= int(x['r1']) <= int(x['r2']) <= MAXROW and int(x['r2']) >= 1)
+
+
+def whole_form_only(x):
+    # 0 is used only for the whole-column / whole-row spelling (A:A, 1:1), not for A:A5
+    return (x['n1'] != 0 or x['n2'] == MAXCOL) and (int(x['r1']) != 0 or int(x['r2']) == MAXROW)
 
 
 def in_rect(x, c, r):
@@ -131,6 +136,16 @@ for _c in (c_split, c_split_inl):
     def _(base, rng, result):
         return len(result) <= 4 and all(p['sheet_id'] == rng['sheet_id'] for p in result)
 
+    @_c.ensures('pieces-are-well-formed-areas', 'P')
+    def _(base, rng, result):
+        # every returned area is a proper rectangle in canonical form, so that its name reads
+        # back as the same cells (otherwise e.g. an empty piece is *named* like a whole row)
+        return all(wf_rect(p) for p in result)
+
+    @_c.known_region('KF-C06-1', 'pieces-are-well-formed-areas')
+    def _(base, rng):
+        return same_sheet(base, rng) and ((rng['n1'] == 0 and base['n1'] == 1) or (int(rng['r1']) == 0 and int(base['r1']) == 1))
+
     @_c.canary('canary:pieces-cover-rng')
     def _(base, rng, result):
         return forall_cells(lambda c, r: any(in_rect(p, c, r) for p in result) == in_rect(rng, c, r),
@@ -242,7 +257,7 @@ CONTRACTS.append(c_shape)
 
 @c_shape.requires
 def _(n1, n2, r1, r2):
-    return wf_rect({'n1': n1, 'n2': n2, 'r1': r1, 'r2': r2})
+    return wf_rect({'n1': n1, 'n2': n2, 'r1': r1, 'r2': r2}) and whole_form_only({'n1': n1, 'n2': n2, 'r1': r1, 'r2': r2})
 
 
 @c_shape.ensures('shape-is-rows-by-columns', 'P')
@@ -269,3 +284,200 @@ PROPERTIES = {
         not_proved=[],
     ),
 }
+
+
+# ====================================================================================
+# Ranges methods: operands with <= 2 areas each, coordinates fully symbolic
+# (complete by unwinding for that area count; the bound is stated in the evidence).
+import schedula as _sh
+from pyvc.contract import ObjT
+
+
+def _fr_returns(ctx, name, loc):
+    """range2parts[FR] result: the keyword arguments themselves plus the computed text fields."""
+    d = dict(loc['inputs'])
+    for k in ('name', 'ref', 'c1', 'c2'):
+        d[k] = StrT().make(ctx, '%s.%s' % (name, k))
+    return d
+
+
+c_fr.returns = _fr_returns
+
+
+def areas(*ns):
+    return OneOf(*[TupleT(*[RectNamed] * n) for n in ns])
+
+
+def RangesT(*ns):
+    return ObjT('formulas.ranges:Ranges', {'ranges': areas(*ns), 'values': ConstT({}), '_value': ConstT(_sh.NONE)})
+
+
+def wf_all(rs):
+    return all(wf_rect(x) for x in rs)
+
+
+def covered(rs, c, r, sheet):
+    return any(x['sheet_id'] == sheet and in_rect(x, c, r) for x in rs)
+
+
+# ------------------------------------------------------------------------------------ __add__  (':' operator)
+c_add = Contract('formulas.ranges:Ranges.__add__', dict(self=RangesT(1, 2), other=RangesT(1, 2)), 'C06',
+                 name='Ranges.__add__', use=['range2parts[FR]'])
+CONTRACTS.append(c_add)
+c_add.bound = 'operands with 1..2 areas each'
+
+
+@c_add.requires
+def _(self, other):
+    return wf_all(self.ranges) and wf_all(other.ranges)
+
+
+def one_sheet(self, other):
+    return all(x['sheet_id'] == self.ranges[0]['sheet_id'] for x in self.ranges + other.ranges)
+
+
+@c_add.ensures('bounding-rectangle-covers-every-operand-area', 'P')
+def _(self, other, result):
+    b = result.ranges[0]
+    return len(result.ranges) == 1 and one_sheet(self, other) and forall_cells(
+        lambda c, r: implies(any(in_rect(x, c, r) for x in self.ranges + other.ranges), in_rect(b, c, r)),
+        list(self.ranges + other.ranges) + [b])
+
+
+@c_add.ensures('bounding-rectangle-is-least', 'P')
+def _(self, other, result):
+    b = result.ranges[0]
+    ops = self.ranges + other.ranges
+    return (any(x['n1'] == b['n1'] for x in ops) and any(x['n2'] == b['n2'] for x in ops)
+            and any(int(x['r1']) == int(b['r1']) for x in ops) and any(int(x['r2']) == int(b['r2']) for x in ops)
+            and b['sheet_id'] == self.ranges[0]['sheet_id'])
+
+
+from formulas.errors import InvalidRangeError as _IRE
+
+
+@c_add.raises(_IRE, 'different-sheets-is-an-error', 'P')
+def _(self, other, exc):
+    return not one_sheet(self, other)
+
+
+@c_add.ensures('result-area-well-formed', 'P')
+def _(self, other, result):
+    b = result.ranges[0]
+    return wf_rect(b) and is_canonical_decimal(b['r1']) and is_canonical_decimal(b['r2'])
+
+
+@c_add.canary('canary:first-area-only')
+def _(self, other, result):
+    return result.ranges[0]['n2'] == max(self.ranges[0]['n2'], other.ranges[0]['n2'])
+
+
+# ------------------------------------------------------------------------------------ __or__ (',' operator)
+c_or = Contract('formulas.ranges:Ranges.__or__', dict(self=RangesT(0, 1, 2), other=RangesT(0, 1, 2)), 'C06',
+                name='Ranges.__or__')
+CONTRACTS.append(c_or)
+
+
+@c_or.ensures('union-keeps-every-area-in-order', 'P')
+def _(self, other, result):
+    return result.ranges == self.ranges + other.ranges
+
+
+@c_or.canary('canary:drops-right')
+def _(self, other, result):
+    return result.ranges == self.ranges
+
+
+# ------------------------------------------------------------------------------------ intersect / __and__ (' ' operator)
+c_and = Contract('formulas.ranges:Ranges.__and__', dict(self=RangesT(0, 1, 2), other=RangesT(0, 1, 2)), 'C06',
+                 name='Ranges.__and__', use=['range2parts[FR]', '_intersect'])
+c_and_d = Contract('formulas.ranges:Ranges.__and__', dict(self=RangesT(1, 2), other=RangesT(1)), 'C06',
+                   name='Ranges.__and__[direct]', use=['range2parts[FR]'])
+for _c in (c_and, c_and_d):
+    CONTRACTS.append(_c)
+
+    @_c.requires
+    def _(self, other):
+        return wf_all(self.ranges) and wf_all(other.ranges)
+
+    @_c.ensures('areas-are-the-nonempty-pairwise-intersections-in-order', 'P')
+    def _(self, other, result):
+        # k-th result area = k-th non-empty (o, s) pair in other-major order; stated cell-wise per pair
+        pairs = [(o, s) for o in other.ranges for s in self.ranges]
+        ne = [same_sheet(o, s) and max(o['n1'], s['n1'], 1) <= min(o['n2'], s['n2'])
+              and max(int(o['r1']), int(s['r1']), 1) <= min(int(o['r2']), int(s['r2'])) for o, s in pairs]
+        idx = [sum(1 for b in ne[:i] if b) for i in range(len(pairs))]
+        return (len(result.ranges) == sum(1 for b in ne if b) and forall_cells(
+            lambda c, r: all((not ne[i]) or (
+                in_rect(result.ranges[idx[i]], c, r) == (in_rect(pairs[i][0], c, r) and in_rect(pairs[i][1], c, r))
+                and result.ranges[idx[i]]['sheet_id'] == pairs[i][0]['sheet_id'])
+                for i in range(len(pairs))),
+            list(self.ranges + other.ranges + result.ranges)))
+
+    @_c.canary('canary:self-major-order')
+    def _(self, other, result):
+        return len(result.ranges) < 2 or forall_cells(
+            lambda c, r: implies(in_rect(result.ranges[1], c, r), in_rect(self.ranges[0], c, r)),
+            list(self.ranges + other.ranges + result.ranges))
+
+
+# ------------------------------------------------------------------------------------ __sub__
+def _split_returns(ctx, name, loc):
+    k = ctx.choice(6)
+    if k == 5:
+        return (loc['rng'],)
+    return tuple(RectNamed.make(ctx, '%s.%d' % (name, i)) for i in range(k))
+
+
+c_split.returns = _split_returns
+
+
+@c_split.ensures('same-object-when-disjoint', 'S')
+def _(base, rng, result):
+    return bool(same_sheet(base, rng) and max(base['n1'], rng['n1'], 1) <= min(base['n2'], rng['n2'])
+                and max(int(base['r1']), int(rng['r1']), 1) <= min(int(base['r2']), int(rng['r2']))) \
+        or (len(result) == 1 and same_object(result[0], rng))
+
+
+c_sub = Contract('formulas.ranges:Ranges.__sub__', dict(self=RangesT(0, 1), other=RangesT(0, 1)), 'C06',
+                 name='Ranges.__sub__', use=['_split'])
+CONTRACTS.append(c_sub)
+c_sub.bound = 'operands with 0..1 areas each (multi-area operands: bounded stage)'
+
+
+@c_sub.requires
+def _(self, other):
+    return wf_all(self.ranges) and wf_all(other.ranges)
+
+
+@c_sub.ensures('difference-covers-self-minus-other', 'P')
+def _(self, other, result):
+    return forall_cells(
+        lambda c, r: any(in_rect(p, c, r) for p in result.ranges) == (
+            any(in_rect(s, c, r) and not any(same_sheet(o, s) and in_rect(o, c, r) for o in other.ranges)
+                for s in self.ranges)),
+        list(self.ranges + other.ranges + result.ranges))
+
+
+@c_sub.ensures('difference-areas-pairwise-disjoint', 'P')
+def _(self, other, result):
+    return forall_cells(
+        lambda c, r: all(not (in_rect(p, c, r) and in_rect(q, c, r))
+                         for i, p in enumerate(result.ranges) for q in result.ranges[i + 1:]),
+        list(self.ranges + other.ranges + result.ranges))
+
+
+@c_sub.ensures('difference-areas-well-formed', 'P')
+def _(self, other, result):
+    return all(wf_rect(p) for p in result.ranges)
+
+
+@c_sub.known_region('KF-C06-1', 'difference-areas-well-formed')
+def _(self, other):
+    return any(same_sheet(o, s) and ((s['n1'] == 0 and o['n1'] == 1) or (int(s['r1']) == 0 and int(o['r1']) == 1))
+               for s in self.ranges for o in other.ranges)
+
+
+@c_sub.canary('canary:nothing-removed')
+def _(self, other, result):
+    return result.ranges == self.ranges
